@@ -421,6 +421,9 @@ class CallMixin:
                     distinct = z3.ForAll([i_, j_], z3.Implies(z3.And(0 <= i_, i_ < j_, j_ < n), z3.Select(arr, i_) != z3.Select(arr, j_)))
                     st.assume(z3.Implies(distinct, self.elems(newseq).t == z3.Store(self.elems(base).t, z3.Select(arr, n - 1), False)))
                     st.assume(z3.IsSubset(self.elems(newseq).t, self.elems(base).t))
+                    x_ = z3.Const(fresh_name("x"), ty.elem.sort())
+                    st.assume(z3.ForAll([x_], z3.Implies(z3.And(z3.Select(self.elems(base).t, x_), x_ != z3.Select(arr, n - 1)), z3.Select(self.elems(newseq).t, x_)),
+                                        patterns=[z3.Select(self.elems(base).t, x_)]))
                 return SV(z3.Select(arr, n - 1), ty.elem)
             if meth == "insert":
                 pos = z3.simplify(self.to_int(self.ev(node.args[0], st), st, node))
@@ -442,7 +445,10 @@ class CallMixin:
                 return SV(T.NoneT.value(), T.NoneT)
             if meth == "extend":
                 o = self.ev(node.args[0], st)
-                writeback(self.seq_concat(base, o))
+                cat = self.seq_concat(base, o, st)
+                if ty.elem != T.Int:
+                    st.assume(z3.Implies(z3.And(n >= 0, o.ty.len(o.t) >= 0), self.elems(cat).t == z3.SetUnion(self.elems(base).t, self.elems(o).t)))
+                writeback(cat)
                 return SV(T.NoneT.value(), T.NoneT)
             if meth == "copy":
                 return base
